@@ -646,6 +646,124 @@ fn rejection_heavy_jobs() -> Vec<Job> {
     jobs
 }
 
+/// `num_choices()` asked through references to a choice distribution (`&d`, `&&d`, `&mut d`, `&mut &mut d`,
+/// `&dyn ChoicesDistribution`, a generic function taking `D: ChoicesDistribution` by value): the forwarding
+/// impls must report the count of the distribution they point to.  Run by `vprobe c18-forwarding` (an unoptimised build) in
+/// a process of its own (see `forwarding_check`).
+pub fn forwarding_probe() -> Result<usize, String> {
+    fn by_value<D: ChoicesDistribution>(d: D) -> usize {
+        d.num_choices().get()
+    }
+    let mut asked = 0;
+    for len in [1usize, 3, 8, 100] {
+        let items: Vec<u32> = (0..len as u32).collect();
+        macro_rules! ask {
+            ($what:literal, $d:expr) => {{
+                let mut d = $d;
+                let direct = ChoicesDistribution::num_choices(&d).get();
+                let shared = by_value(&d);
+                let shared2 = by_value(&&d);
+                let dynamic = {
+                    let r: &dyn ChoicesDistribution = &d;
+                    by_value(r)
+                };
+                let exclusive = by_value(&mut d);
+                let exclusive2 = {
+                    let mut m = &mut d;
+                    by_value(&mut m)
+                };
+                let shared_exclusive = {
+                    let m = &mut d;
+                    by_value(&m)
+                };
+                let dynamic_exclusive = {
+                    let r: &mut dyn ChoicesDistribution = &mut d;
+                    by_value(r)
+                };
+                for (how, n) in [("d", direct), ("&d", shared), ("&&d", shared2), ("&dyn", dynamic), ("&mut d", exclusive), ("&mut &mut d", exclusive2), ("&&mut d", shared_exclusive), ("&mut dyn", dynamic_exclusive)] {
+                    asked += 1;
+                    if n != len {
+                        return Err(format!("{} over {len} members asked through {how}: num_choices() = {n}", $what));
+                    }
+                }
+            }};
+        }
+        ask!("Vec into_distribution (owned)", items.clone().into_distribution().map_err(|_| "rejected".to_string())?);
+        ask!("&[T] into_distribution::<&T>", IntoDistribution::<&u32>::into_distribution(items.as_slice()).map_err(|_| "rejected".to_string())?);
+        ask!("&[T] into_distribution::<T>", IntoDistribution::<u32>::into_distribution(items.as_slice()).map_err(|_| "rejected".to_string())?);
+    }
+    Ok(asked)
+}
+
+/// The probe above in a child process: a forwarding impl that calls itself does not return - it overflows the
+/// stack, which ends the process it runs in. A child that dies that way is a violation (the crash is the code
+/// under test's, on trivial inputs); a child that runs into the time limit makes the run inconclusive.
+fn forwarding_check(ctx: &mut Ctx) {
+    // built without optimisation, so that a call that never returns overflows the stack instead of spinning
+    let dir = format!("{}/harness", std::env::var("VERIF_DIR_REAL").unwrap_or_else(|_| crate::VERIF_DIR.to_string()));
+    let built = std::process::Command::new("cargo")
+        .args(["build", "--offline", "--profile", "probe", "--bin", "vprobe"])
+        .current_dir(&dir)
+        .env("CARGO_NET_OFFLINE", "true")
+        .output();
+    match built {
+        Ok(o) if o.status.success() => {}
+        Ok(o) => {
+            let e = String::from_utf8_lossy(&o.stderr);
+            ctx.inconclusive.push(format!("forwarding probe does not build: {:?}", e.lines().filter(|l| l.starts_with("error")).take(3).collect::<Vec<_>>()));
+            return;
+        }
+        Err(e) => {
+            ctx.inconclusive.push(format!("forwarding probe: cannot run cargo: {e}"));
+            return;
+        }
+    }
+    let child = std::process::Command::new(format!("{dir}/target/probe/vprobe")).arg("c18-forwarding").stdout(std::process::Stdio::piped()).stderr(std::process::Stdio::piped()).spawn();
+    let Ok(mut child) = child else {
+        ctx.inconclusive.push("forwarding probe: cannot start the child process".into());
+        return;
+    };
+    let t0 = std::time::Instant::now();
+    let status = loop {
+        match child.try_wait() {
+            Ok(Some(s)) => break Some(s),
+            Ok(None) if t0.elapsed().as_secs() < 120 => std::thread::sleep(std::time::Duration::from_millis(20)),
+            _ => {
+                let _ = child.kill();
+                let _ = child.wait();
+                break None;
+            }
+        }
+    };
+    let mut out = String::new();
+    let mut err = String::new();
+    if let Some(mut o) = child.stdout.take() {
+        let _ = std::io::Read::read_to_string(&mut o, &mut out);
+    }
+    if let Some(mut e) = child.stderr.take() {
+        let _ = std::io::Read::read_to_string(&mut e, &mut err);
+    }
+    ctx.count("num_choices_through_references", 96);
+    match status {
+        None => ctx.inconclusive.push("forwarding probe: the child process did not finish within 120 s (num_choices() through a reference does not return)".into()),
+        Some(s) if s.success() && out.contains("forwarding ok") => {
+            ctx.note_nontrivial(crate::fnv("forwarding"));
+        }
+        Some(s) => {
+            let first = out.lines().chain(err.lines()).find(|l| l.contains("num_choices") || l.contains("overflow") || l.contains("panicked")).unwrap_or("no output").to_string();
+            let f = if out.contains("WRONG:") {
+                Fail::new("choice/num_choices-through-a-reference", format!("num_choices() asked through a reference: {first}"))
+            } else {
+                Fail::new(
+                    "choice/num_choices-through-a-reference-crashes",
+                    format!("asking num_choices() through references (&d, &&d, &dyn, &mut d, &mut &mut d, &&mut d, &mut dyn) ended the probe process abnormally ({s}): {first}"),
+                )
+            };
+            ctx.violation("num_choices_through_references", &f, serde_json::json!({"probe": "harness/target/probe/vprobe c18-forwarding"}));
+        }
+    }
+}
+
 /// Member counts beyond 16 and 32 bits, reachable at no cost with zero-sized members: every flavour must
 /// accept the collection, report exactly its length and hand out a member.
 fn wide_count_check(ctx: &mut Ctx) {
@@ -679,7 +797,7 @@ fn wide_count_check(ctx: &mut Ctx) {
 }
 
 pub fn run(ctx: &mut Ctx) {
-    ctx.rule = "collections: sizes 0..300 plus boundary sizes up to 5000 (and 100000 once per run; bitstrings of 2^24+1, 2^25+1 and 2^26+2 bits once per run, also through Bitstring::random / random_with_probability, which are exercised at all other sizes too) through Generator for Vec<T>, Bitstring, Plushy, populations of scored individuals and nested collections, into_ and to_ flavours, with an element generator that counts how often it is asked and tags what it emits (length = size, asked exactly size times, elements are exactly the generator's output). choices: all 14 conversion flavours of conversion.rs (Vec / array / slice x into / to x owned-cloning / borrowing / cloning) plus uniform_distribution_of!, sources of length 0..8 (membership) and 1..200 (frequencies) with and without duplicates, plus the Vec / slice flavours built once over 255..65537 members and sampled many times (16 index buckets and the end members), two sources of 25 and 33 million members (index residues mod 2, 3, 5, 8 and 16 buckets: beyond the resolution of a 24-bit draw), and sources of up to 2^33+1 zero-sized members (accepted, num_choices exact): empty => rejected at construction without panic; samples are members (pointer identity for borrowing flavours), num_choices = length; member frequencies = multiplicity / length (Chernoff/KL). non-trivial = size >= 2 / source length >= 2; statistics with 0 < p < 1".into();
+    ctx.rule = "collections: sizes 0..300 plus boundary sizes up to 5000 (and 100000 once per run; bitstrings of 2^24+1, 2^25+1 and 2^26+2 bits once per run, also through Bitstring::random / random_with_probability, which are exercised at all other sizes too) through Generator for Vec<T>, Bitstring, Plushy, populations of scored individuals and nested collections, into_ and to_ flavours, with an element generator that counts how often it is asked and tags what it emits (length = size, asked exactly size times, elements are exactly the generator's output). choices: all 14 conversion flavours of conversion.rs (Vec / array / slice x into / to x owned-cloning / borrowing / cloning) plus uniform_distribution_of!, sources of length 0..8 (membership) and 1..200 (frequencies) with and without duplicates, plus the Vec / slice flavours built once over 255..65537 members and sampled many times (16 index buckets and the end members), two sources of 25 and 33 million members (index residues mod 2, 3, 5, 8 and 16 buckets: beyond the resolution of a 24-bit draw), and sources of up to 2^33+1 zero-sized members (accepted, num_choices exact); num_choices() asked through &d, &&d, &dyn, &mut d, &mut &mut d, &&mut d, &mut dyn (in a child process: a forwarding impl that never returns ends that process, not the check): empty => rejected at construction without panic; samples are members (pointer identity for borrowing flavours), num_choices = length; member frequencies = multiplicity / length (Chernoff/KL). non-trivial = size >= 2 / source length >= 2; statistics with 0 < p < 1".into();
     let (n, trials, max) = ctx.tier.pick((300_000u32, 1_000_000u64, 300usize), (5_000_000, 10_000_000, 2_000));
     // one very large request per run
     ctx.run_cases(
@@ -704,6 +822,7 @@ pub fn run(ctx: &mut Ctx) {
     run_jobs(ctx, "choice_uniformity_huge_sources", huge_choice_jobs(), trials);
     run_jobs(ctx, "choice_uniformity_rejection_heavy_sources", rejection_heavy_jobs(), trials);
     wide_count_check(ctx);
+    forwarding_check(ctx);
     // coverage-guided search over the same strategies and oracles (thorough tier; see ptfuzz.rs)
     crate::ptfuzz::thorough(ctx, &[("c18", 16, 1_000_000)]);
 }
@@ -717,6 +836,8 @@ pub fn replay(ctx: &mut Ctx, sub: &str, case: &Value) {
         run_jobs(ctx, "choice_uniformity_huge_sources", huge_choice_jobs(), trials);
     } else if sub == "wide_member_counts" {
         wide_count_check(ctx);
+    } else if sub == "num_choices_through_references" {
+        forwarding_check(ctx);
     } else if sub == "choice_uniformity_long_sources" {
         let trials = ctx.tier.pick(1_000_000u64, 10_000_000);
         run_jobs(ctx, "choice_uniformity_long_sources", long_choice_jobs(), trials);
